@@ -18,7 +18,9 @@ LineAgrees(e) ==
        /\ ~Panicked(e.obs.derive_errors)                            \* it never panics
        /\ IF poisoned
           THEN Len(e.obs.derive_errors) >= 1                         \* a diagnostic issued by the derive
-          ELSE Len(e.obs.derive_errors) = 0 /\ Len(e.obs.rustc_errors) = 0   \* valid input: the generated impl compiles
+          \* an input the property does not list: the generated impl compiles - or the derive refuses it as well, with a diagnostic of
+          \* its own (the property names what MUST be refused, it does not promise that everything else is accepted)
+          ELSE (Len(e.obs.derive_errors) = 0 /\ Len(e.obs.rustc_errors) = 0) \/ Len(e.obs.derive_errors) >= 1
 
 TraceInit == l = 1 /\ nviol = 0 /\ viol = <<>> /\ okv = TRUE /\ nrej = 0
 \* the DDerive machine variables are not used by the validation (the functional form is)
